@@ -15,7 +15,7 @@ cp /repo/Cargo.lock $M/repo/Cargo.lock 2>/dev/null || true
 sed -i "s#path = \"/repo\"#path = \"$M/repo\"#" $M/verif/harness/Cargo.toml
 sed -i "s#/verif/.cache/target#$M/verif/.cache/target#" $M/verif/harness/.cargo/config.toml
 if [ "$patch" != "-" ]; then git -C $M/repo apply "$patch"; fi
-cd $M/verif
+cd $M/verif; mkdir -p .cache
 for id in "$@"; do
   VERIF_REPO=$M/repo ./check $id ${TIER:-quick} > .cache/seed_$id.log 2>&1 && rc=0 || rc=$?
   echo "$id rc=$rc $(grep -m1 VIOLATION .cache/seed_$id.log | cut -c1-160) | $(tail -1 .cache/seed_$id.log)"
